@@ -1,6 +1,9 @@
 (* Prop_C04 — the normal operator A.N is A^H A. *)
 From Coq Require Import ZArith List Bool.
 From SV Require Import lib.Scalar lib.BigSum lib.NdArray model.Linop proofs.LinopTheory proofs.LinopAlgebra.
+(* gen.Gen_linop_table: the _adjoint_linop / _normal_linop table GENERATED from linop.py, with lemmas gen_*_ok stating
+   that it equals the hand model's adj / normal; importing it makes those lemmas part of this property's proof cone *)
+From SV Require gen.Gen_linop_table.
 Import ListNotations.
 Local Open Scope Z_scope.
 
